@@ -40,6 +40,8 @@ pub struct RunStats {
 pub struct RunResult {
   pub digest: u64,
   pub stats: RunStats,
+  /// known findings hit on the way (the model was re-synchronised with the system after each)
+  pub known_hits: Vec<Violation>,
   pub violation: Option<Violation>,
   pub ops: Vec<Op>,
   pub log: Vec<String>,
@@ -79,6 +81,10 @@ fn diff_store(expected: &MStore, observed: &Store) -> Vec<Diff> {
   out
 }
 
+fn sig_kind(op: &Op) -> String {
+  match op { Op::OpAssign { op: b, .. } => format!("{}:{}", op.kind(), b.name()), o => o.kind().to_string() }
+}
+
 fn fault_family(f: &str) -> String {
   // "f5-index-oob@2" -> "f5-index-oob"
   f.split('@').next().unwrap_or(f).split(':').next().unwrap_or(f).to_string()
@@ -99,7 +105,7 @@ pub struct Session {
 }
 
 /// Execute one session. Must be called on a node thread (fresh hash seed).
-pub fn run_session(mut src: Source, supported: Arc<BTreeSet<String>>, properties: &[&str]) -> RunResult {
+pub fn run_session(mut src: Source, supported: Arc<BTreeSet<String>>, properties: &[&str], known: &[(String, String)]) -> RunResult {
   let mut node = Node::new();
   let mut model = Model::new(supported);
   let mut stats = RunStats::default();
@@ -107,6 +113,7 @@ pub fn run_session(mut src: Source, supported: Arc<BTreeSet<String>>, properties
   let mut dig = Digest::new();
   let mut ops_done: Vec<Op> = vec![];
   let mut violation: Option<Violation> = None;
+  let mut known_hits: Vec<Violation> = vec![];
   let mut pending_readback: Option<Op> = None;
   let mut i = 0usize;
   loop {
@@ -140,7 +147,7 @@ pub fn run_session(mut src: Source, supported: Arc<BTreeSet<String>>, properties
       Violation {
         properties: properties_of(class, &op),
         class: class.to_string(),
-        signature: format!("{}|{}|{}", class, op.kind(), detail),
+        signature: format!("{}|{}|{}", class, sig_kind(&op), detail),
         op_index: ops_done.len() - 1,
         op_text: text.clone(),
         expected, observed: observed_s,
@@ -167,7 +174,14 @@ pub fn run_session(mut src: Source, supported: Arc<BTreeSet<String>>, properties
             let only_target = diffs.iter().all(|d| matches!(d, Diff::Value(n, ..) if n == tgt));
             let name_set = diffs.iter().any(|d| matches!(d, Diff::Missing(_) | Diff::Extra(_)));
             let class = if name_set { "failed-statement-changed-name-set" } else if only_target { "torn-write" } else { "failed-statement-changed-binding" };
-            let fam = verdict.fault.as_ref().map(|f| fault_family(f)).unwrap_or("?".into());
+            let mut fam = verdict.fault.as_ref().map(|f| fault_family(f)).unwrap_or("?".into());
+            // where the model had no definite fault in mind, name the failure by what the system hit
+            if fam == "?" || fam.starts_with("unsure") || fam.starts_with("repeated") {
+              if let Outcome::Err { panic: Some((m, _)), .. } = &outcome {
+                if m.contains("overflow") || m.contains("divide by zero") { fam = "f4-arith".into(); }
+                else if m.contains("out of bounds") { fam = "f5-index-oob".into(); }
+              }
+            }
             let form = match &op { Op::IdxAssign { sub, .. } | Op::OpAssign { sub: Some(sub), .. } => sub.form(), _ => String::new() };
             found = Some(viol(class, format!("{}|{}", fam, form), format!("store unchanged: {}", show_mstore(&pre)), format!("{} ; after: {}", outcome.show(), show_store(&observed))));
           } else if !verdict.err_names.is_empty() && !verdict.err_names.contains(&name.as_str()) {
@@ -179,7 +193,8 @@ pub fn run_session(mut src: Source, supported: Arc<BTreeSet<String>>, properties
         bump(&mut stats.reach, "ok");
         stats.combos_ok.insert(verdict.combo.clone());
         if verdict.must == Must::Err {
-          found = Some(viol("missing-rejection", fault_family(verdict.fault.as_deref().unwrap_or("?")), format!("an error ({})", verdict.fault.clone().unwrap_or_default()), format!("{} ; after: {}", outcome.show(), show_store(&observed))));
+          let form = match &op { Op::IdxAssign { sub, .. } | Op::OpAssign { sub: Some(sub), .. } => format!("|{}", sub.form()), _ => String::new() };
+          found = Some(viol("missing-rejection", format!("{}{}", fault_family(verdict.fault.as_deref().unwrap_or("?")), form), format!("an error ({})", verdict.fault.clone().unwrap_or_default()), format!("{} ; after: {}", outcome.show(), show_store(&observed))));
         } else {
           // expected store after success
           let expected: MStore = match &verdict.after {
@@ -198,7 +213,9 @@ pub fn run_session(mut src: Source, supported: Arc<BTreeSet<String>>, properties
           if !diffs.is_empty() {
             found = Some(classify_ok_diffs(&op, &verdict, &pre, &expected, &observed, &diffs, &mut viol));
           } else if let Some(exp_ret) = &verdict.ret {
-            let same = if verdict.ret_flat { flat(exp_ret) == flat(ret) } else { exp_ret == ret };
+            // non-scalar indexing reads: which elements come back is checked, their arrangement is
+            // C03's business (shape and ordering conventions of reads) — compared as multisets
+            let same = if verdict.ret_flat { let (mut a, mut b) = (flat(exp_ret), flat(ret)); a.sort(); b.sort(); a == b } else { exp_ret == ret };
             if !same {
               let class = if matches!(op, Op::Read { e: Expr::VarIdx(..) }) { "readback-mismatch" } else { "return-mismatch" };
               found = Some(viol(class, verdict.combo.clone(), exp_ret.show(), ret.show()));
@@ -214,11 +231,27 @@ pub fn run_session(mut src: Source, supported: Arc<BTreeSet<String>>, properties
     }
     if let Some(v) = found {
       log.push(format!("   !! {} :: expected {} :: observed {}", v.signature, trunc(&v.expected, 300), trunc(&v.observed, 300)));
-      if v.properties.iter().any(|p| properties.contains(&p.as_str())) { violation = Some(v); } else { bump(&mut stats.reach, "foreign-violation-ended-run"); violation = Some(v); }
+      let is_known = known.iter().any(|(p, sig)| v.properties.contains(p) && crate::check::sig_matches(sig, &v.signature));
+      if is_known && !matches!(outcome, Outcome::Escaped { .. }) {
+        // a recorded finding: note it, adopt the system's state and carry on, so that the rest of
+        // the session is still explored (each later manifestation is matched again on its own)
+        log.push("   .. known finding; model re-synchronised with the system".to_string());
+        bump(&mut stats.reach, "known-finding-resync");
+        let mut st = MStore::new();
+        for (n, m, val) in &observed {
+          let origin = model.store.get(n).map(|b| b.origin.clone()).or_else(|| pre.get(n).map(|b| b.origin.clone())).unwrap_or_else(|| "resync".into());
+          st.insert(n.clone(), Binding { mutable: *m, v: val.clone(), origin });
+        }
+        model.store = st;
+        known_hits.push(v);
+        continue;
+      }
+      if !v.properties.iter().any(|p| properties.contains(&p.as_str())) { bump(&mut stats.reach, "foreign-violation-ended-run"); }
+      violation = Some(v);
       break;
     }
   }
-  RunResult { digest: dig.finish(), stats, violation, ops: ops_done, log }
+  RunResult { digest: dig.finish(), stats, known_hits, violation, ops: ops_done, log }
 }
 
 fn origin_tag(pre: &MStore, a: &str) -> String {
@@ -239,7 +272,14 @@ fn classify_ok_diffs(op: &Op, verdict: &Verdict, pre: &MStore, expected: &MStore
         let immut = pre.get(n).map(|b| !b.mutable).unwrap_or(false);
         let class = if immut { "immutable-changed" } else { "alias" };
         let t0 = tgt.get(0).cloned().unwrap_or_default();
-        return viol(class, format!("other:{}|target:{}", origin_tag(pre, n), origin_tag(pre, &t0)), exp_s, obs_s);
+        let (a, b) = (origin_tag(pre, n), origin_tag(pre, &t0));
+        let via = if a.ends_with("<-field") || b.ends_with("<-field") { "via-field-access" }
+          else if a.ends_with("<-tuple-elem") || b.ends_with("<-tuple-elem") { "via-tuple-element-access" }
+          else if a.starts_with("destructure") || b.starts_with("destructure") { "via-destructure" }
+          else if a.ends_with("<-var") || b.ends_with("<-var") { "via-define-from-variable" }
+          else if a.ends_with("<-var-idx") || b.ends_with("<-var-idx") { "via-index-access" }
+          else { "unrelated-names" };
+        return viol(class, via.to_string(), format!("{} (origins: {}={}, {}={})", exp_s, n, a, t0, b), obs_s);
       }
     }
   }
@@ -301,40 +341,42 @@ pub fn plan_run(seed: u64, k: u64, profile: &str) -> (RunPlan, Rng) {
   (RunPlan { world: "W1".into(), profile: profile.into(), seed, run: k, hash_seed, knobs: Some(knobs) }, rng)
 }
 
-pub fn execute_generated(seed: u64, k: u64, profile: &'static str, supported: Arc<BTreeSet<String>>) -> (RunPlan, RunResult) {
+pub fn execute_generated(seed: u64, k: u64, profile: &'static str, supported: Arc<BTreeSet<String>>, known: &[(String, String)]) -> (RunPlan, RunResult) {
+  let known: Vec<(String, String)> = known.to_vec();
   let (plan, mut rng) = plan_run(seed, k, profile);
   let knobs = plan.knobs.clone().unwrap();
   let hs = plan.hash_seed;
   let props: Vec<&'static str> = vec![profile];
-  let res = crate::hashseed::on_node_thread(hs, move || run_session(Source::Generate { rng: &mut rng, knobs: &knobs }, supported, &props));
+  let res = crate::hashseed::on_node_thread(hs, move || run_session(Source::Generate { rng: &mut rng, knobs: &knobs }, supported, &props, &known));
   match res {
     Ok(r) => (plan, r),
     Err(msg) => {
       // the node thread itself died from a panic outside every catch_unwind: host aborted
       let v = Violation { properties: vec!["C05".into()], class: "host-aborted".into(), signature: format!("host-aborted|thread|{}", trunc(&msg, 60)), op_index: 0, op_text: String::new(), expected: "an error value".into(), observed: msg };
-      (plan, RunResult { digest: 0, stats: RunStats::default(), violation: Some(v), ops: vec![], log: vec![] })
+      (plan, RunResult { digest: 0, stats: RunStats::default(), known_hits: vec![], violation: Some(v), ops: vec![], log: vec![] })
     }
   }
 }
 
-pub fn execute_explicit(ops: Vec<Op>, hash_seed: u64, properties: Vec<String>, supported: Arc<BTreeSet<String>>) -> RunResult {
+pub fn execute_explicit(ops: Vec<Op>, hash_seed: u64, properties: Vec<String>, supported: Arc<BTreeSet<String>>, known: &[(String, String)]) -> RunResult {
+  let known: Vec<(String, String)> = known.to_vec();
   let res = crate::hashseed::on_node_thread(hash_seed, move || {
     let props: Vec<&str> = properties.iter().map(|s| s.as_str()).collect();
-    run_session(Source::Explicit(&ops), supported, &props)
+    run_session(Source::Explicit(&ops), supported, &props, &known)
   });
   match res {
     Ok(r) => r,
     Err(msg) => {
       let v = Violation { properties: vec!["C05".into()], class: "host-aborted".into(), signature: format!("host-aborted|thread|{}", trunc(&msg, 60)), op_index: 0, op_text: String::new(), expected: "an error value".into(), observed: msg };
-      RunResult { digest: 0, stats: RunStats::default(), violation: Some(v), ops: vec![], log: vec![] }
+      RunResult { digest: 0, stats: RunStats::default(), known_hits: vec![], violation: Some(v), ops: vec![], log: vec![] }
     }
   }
 }
 
 /// ddmin over the operation list, keeping a candidate only if the same signature persists.
-pub fn minimise(ops: &[Op], hash_seed: u64, sig: &str, properties: &[String], supported: Arc<BTreeSet<String>>) -> Vec<Op> {
+pub fn minimise(ops: &[Op], hash_seed: u64, sig: &str, properties: &[String], supported: Arc<BTreeSet<String>>, known: &[(String, String)]) -> Vec<Op> {
   let same = |cand: &[Op]| -> bool {
-    let r = execute_explicit(cand.to_vec(), hash_seed, properties.to_vec(), supported.clone());
+    let r = execute_explicit(cand.to_vec(), hash_seed, properties.to_vec(), supported.clone(), known);
     r.violation.map(|v| v.signature == sig).unwrap_or(false)
   };
   let mut cur: Vec<Op> = ops.to_vec();
